@@ -369,7 +369,7 @@ def run_cluster(case):
     flags = set()
     trace = []
     try:
-        simprop.boot(sim)
+        simprop.boot(sim, need_leader=True)
         leader = [n for n in sim.live() if sim.nodes[n]._isLeader()]
         if not leader:
             raise runner.HarnessError('no leader after boot')
